@@ -19,7 +19,7 @@ import numpy as np
 
 import mygrad as mg
 from mygrad import Tensor
-from runtime.common import Bounded, close
+from runtime.common import Bounded, close, robust_central
 from runtime.programs import P, leaves, numeric_grads, run_numpy, select
 
 
@@ -81,6 +81,8 @@ def check_c01_c05(prop, tier, seed):
                             b.fail(f"{prop}.bounded.grad", dict(desc, leaf=i, values=[v.tolist() for v in vals]), f"grad is None, expected {exp.tolist()}")
                         continue
                     ok_any = True
+                    if isinstance(exp, np.ma.MaskedArray):
+                        b.count("elements skipped: finite-difference oracle unreliable next to a kink", int(np.ma.getmaskarray(exp).sum()))
                     if not close(got, exp, rtol=1e-5, atol=1e-6):
                         b.fail(f"{prop}.bounded.grad", dict(desc, leaf=i, values=[v.tolist() for v in vals]), f"got {np.asarray(got).tolist()} expected {exp.tolist()}")
                 if name == "unused-branch" and not cm[1]:
@@ -131,7 +133,7 @@ def check_c05_mutated_current_value(b, rng, tier):
                     delta[i] = dl
                     _x, Lv = fn(np, *[v.copy() for v in vals], delta)
                     return float(Lv)
-                exp[i] = (-ev(2 * h) + 8 * ev(h) - 8 * ev(-h) + ev(-2 * h)) / (12 * h)
+                exp[i], _ok = robust_central(ev, h)
             desc = dict(program=f"mutated-current-value/{nm}", draw=d)
             b.count("mutated.grad == d L / d (post-mutation value)")
             b.case(desc)
@@ -447,6 +449,61 @@ def check_c06(tier, seed):
                     elif vg.size and not np.shares_memory(vg, base.grad):
                         b.fail("C06.bounded.view_grad_not_shared", desc, "view.grad does not share memory with base.grad")
                     b.case(desc)
+    # the base is the *terminal* tensor: its gradient is the caller's seed, of any layout / dtype / broadcastable shape
+    def seeds(shape):
+        full = rng.uniform(1, 2, size=shape)
+        yield "C-ordered", np.ascontiguousarray(full)
+        yield "F-ordered", np.asfortranarray(full)
+        yield "transposed-copy", np.ascontiguousarray(full.T).T
+        yield "strided", np.repeat(full, 2, axis=-1)[..., ::2]
+        yield "float32", full.astype(np.float32)
+        yield "float32-F", np.asfortranarray(full.astype(np.float32))
+        yield "broadcast-row", full[:1]
+        yield "broadcast-last", full[..., :1]
+        yield "tensor-F", mg.tensor(np.asfortranarray(full))
+        if len(shape) == 3:
+            yield "broadcast-2d-F", np.asfortranarray(full[0])
+
+    for order in ("C", "F"):
+        for shape in ((3, 3), (2, 3, 2)):
+            for sname, _unused in seeds(shape):
+                for L in range(1, maxlen + 1):
+                    for chain in itertools.product(range(len(ops)), repeat=L):
+                        src = mg.tensor(np.asarray(rng.uniform(-1, 1, size=shape), order=order), copy=False)
+                        base = src * 2.0  # terminal tensor that owns its memory (layout follows src)
+                        v, ok = base, True
+                        for j in chain:
+                            try:
+                                v2 = ops[j][1](v)
+                            except Exception:
+                                ok = False
+                                break
+                            if v2 is None or not np.shares_memory(v2.data, base.data):
+                                ok = False
+                                break
+                            v = v2
+                        if not ok:
+                            continue
+                        g = dict(seeds(shape))[sname]
+                        desc = dict(chain=[ops[j][0] for j in chain], order=order, shape=list(shape), seed=sname, terminal="base")
+                        try:
+                            base.backward(g)
+                        except Exception as e:
+                            b.fail("C06.bounded.raises", desc, f"{type(e).__name__}: {e}")
+                            continue
+                        bg = base.grad
+                        ref = bg
+                        for j in chain:
+                            ref = ops[j][1](ref)
+                        b.count("view of a seeded terminal: view.grad is the view of base.grad")
+                        vg = v.grad
+                        if vg is None:
+                            b.fail("C06.bounded.view_grad_unavailable", desc, "view.grad is None although base.grad is available")
+                        elif vg.shape != ref.shape or not np.array_equal(vg, ref):
+                            b.fail("C06.bounded.view_grad_value", desc, "view.grad differs from the chain applied to base.grad")
+                        elif vg.size and not np.shares_memory(vg, bg):
+                            b.fail("C06.bounded.view_grad_not_shared", desc, "view.grad does not share memory with base.grad (seeded terminal)")
+                        b.case(desc)
     # gradients of tensors that do not share memory never share memory
     for (name, tags, shapes, f) in select():
         vals = leaves(rng, shapes)
